@@ -143,8 +143,27 @@ func labelsJS(name string) [][]int {
 	return r
 }
 
-// miekg presents labels in escaped text form; the harness only uses plain labels
-func unescape(l string) string { return l }
+// miekg presents labels in escaped text form (\DDD for an octet, \X for a special character): back to the octets
+func unescape(l string) string {
+	if strings.IndexByte(l, '\\') < 0 {
+		return l
+	}
+	b := make([]byte, 0, len(l))
+	for i := 0; i < len(l); i++ {
+		if l[i] != '\\' || i+1 >= len(l) {
+			b = append(b, l[i])
+			continue
+		}
+		if i+3 < len(l) && l[i+1] >= '0' && l[i+1] <= '9' && l[i+2] >= '0' && l[i+2] <= '9' && l[i+3] >= '0' && l[i+3] <= '9' {
+			b = append(b, byte(int(l[i+1]-'0')*100+int(l[i+2]-'0')*10+int(l[i+3]-'0')))
+			i += 3
+			continue
+		}
+		b = append(b, l[i+1])
+		i++
+	}
+	return string(b)
+}
 
 // optScan walks the additional section of an uncompressed single-question message (the form the
 // proxy sends upstream) and returns, for OPT records: count, class (udp size), total rdlen of the
